@@ -655,4 +655,105 @@ theorem buildCascadesFrom_fuel (bm0 : BufferMap) (b : Builder) (ref fb : CostMap
       · next e1 h1 => simp at h; subst h; exact outerStep_err b ref fb st op _ h1
   exact gen _ _ h
 
+theorem optimizeLoop_within (b : Builder) (fb : CostMap) (limit : Int) :
+    ∀ (props : List CostMap) (it mx : Nat) (best : Option Proposal) (seen : List Proposal) (r : Option Proposal × List Proposal),
+      (∀ p, best = some p → p.usage ≤ limit) →
+      optimizeLoop b fb limit props it mx best seen = .ok r → ∀ p, r.1 = some p → p.usage ≤ limit := by
+  intro props
+  induction props with
+  | nil => intro it mx best seen r hb h; simp [optimizeLoop] at h; subst h; exact hb
+  | cons ref rest ih =>
+    intro it mx best seen r hb h
+    unfold optimizeLoop at h
+    simp only [bind, Except.bind] at h
+    split at h
+    · simp at h
+    · split at h
+      · simp at h
+      · next st _ _ usage hu =>
+        have fin : ∀ (mxn : Nat),
+            (if (decide (usage ≤ limit) && decide (st.cascades.length ≤ mxn)) = true then
+              if st.cascades.isEmpty = true then
+                Except.ok (some { cost := st.cost, cascades := st.cascades, usage := usage },
+                  seen ++ [{ cost := st.cost, cascades := st.cascades, usage := usage }])
+              else optimizeLoop b fb limit rest (it + 1) mxn (some { cost := st.cost, cascades := st.cascades, usage := usage })
+                (seen ++ [{ cost := st.cost, cascades := st.cascades, usage := usage }])
+            else Except.ok (best, seen ++ [{ cost := st.cost, cascades := st.cascades, usage := usage }])) = Except.ok r →
+            ∀ p, r.1 = some p → p.usage ≤ limit := by
+          intro mxn h
+          split at h
+          · next hacc =>
+            simp only [Bool.and_eq_true, decide_eq_true_eq] at hacc
+            split at h
+            · simp only [Except.ok.injEq] at h; subst h
+              intro p hp; simp only [Option.some.injEq] at hp; subst hp; exact hacc.1
+            · exact ih _ _ _ _ r (by intro p hp; simp only [Option.some.injEq] at hp; subst hp; exact hacc.1) h
+          · simp only [Except.ok.injEq] at h; subst h; exact hb
+        split at h
+        · exact fin _ h
+        · exact fin _ h
+/-- what `estimate_schedule_memory_usage` attributes to one operation -/
+def opEstimate (cost : CostMap) (cascades : List CascadeInfo) (nonLocal : List (Nat × Int)) (op : SOp) : Except Err (Option Int) :=
+  match cost.lookup op.index with
+  | none => .ok none
+  | some c =>
+    if c.cascade != 0 then do
+      let ci ← findCascade cascades c.cascade
+      .ok (some (ci.memUsage + nlOf nonLocal op.index))
+    else .ok (some (((op.ifm.sizeInBytes + op.ofm.sizeInBytes + sumNat c.weightBuffers : Nat) : Int) + nlOf nonLocal op.index))
+
+theorem bind_okE {α β : Type} {x : Except Err α} {f : α → Except Err β} {b : β} (h : (x >>= f) = .ok b) :
+    ∃ a, x = .ok a ∧ f a = .ok b := by
+  cases x with
+  | error e => simp [bind, Except.bind] at h
+  | ok a => exact ⟨a, rfl, by simpa [bind, Except.bind] using h⟩
+
+theorem estimate_fold_ge (cost : CostMap) (cascades : List CascadeInfo) (nonLocal : List (Nat × Int)) :
+    ∀ (ops : List SOp) (init u : Int),
+      ops.foldlM (fun peak op =>
+        match cost.lookup op.index with
+        | none => (Except.ok peak : Except Err Int)
+        | some c =>
+          if c.cascade != 0 then do
+            let ci ← findCascade cascades c.cascade
+            .ok (max (ci.memUsage + nlOf nonLocal op.index) peak)
+          else
+            .ok (max (((op.ifm.sizeInBytes + op.ofm.sizeInBytes + sumNat c.weightBuffers : Nat) : Int) + nlOf nonLocal op.index) peak)) init = .ok u →
+      init ≤ u ∧ ∀ op ∈ ops, ∀ v, opEstimate cost cascades nonLocal op = .ok (some v) → v ≤ u := by
+  intro ops
+  induction ops with
+  | nil => intro init u h; simp [pure, Except.pure] at h; subst h; exact ⟨Int.le_refl _, by intro op hop; simp at hop⟩
+  | cons op rest ih =>
+    intro init u h
+    simp only [List.foldlM_cons] at h
+    obtain ⟨p1, h1, h⟩ := bind_okE h
+    obtain ⟨hle, hall⟩ := ih p1 u h
+    have hstep : init ≤ p1 ∧ ∀ v, opEstimate cost cascades nonLocal op = .ok (some v) → v ≤ p1 := by
+      unfold opEstimate
+      cases hl : List.lookup op.index cost with
+      | none => simp only [hl, Except.ok.injEq] at h1; subst h1; simp
+      | some c =>
+        simp only [hl] at h1 ⊢
+        split at h1
+        · next hc =>
+          simp only [hc, ↓reduceIte]
+          cases hf : findCascade cascades c.cascade with
+          | error e => simp [hf, bind, Except.bind] at h1
+          | ok ci =>
+            simp only [hf, bind, Except.bind, Except.ok.injEq] at h1 ⊢
+            subst h1
+            exact ⟨Int.le_max_right _ _, by intro v hv; simp only [Option.some.injEq] at hv; subst hv; exact Int.le_max_left _ _⟩
+        · next hc =>
+          simp only [Except.ok.injEq] at h1
+          subst h1
+          refine ⟨Int.le_max_right _ _, ?_⟩
+          intro v hv
+          simp only [hc, Bool.false_eq_true, ↓reduceIte, Except.ok.injEq, Option.some.injEq] at hv
+          subst hv; exact Int.le_max_left _ _
+    refine ⟨Int.le_trans hstep.1 hle, ?_⟩
+    intro o ho v hv
+    simp only [List.mem_cons] at ho
+    rcases ho with rfl | ho
+    · exact Int.le_trans (hstep.2 v hv) hle
+    · exact hall o ho v hv
 end VelaVerif.SchedMem
